@@ -25,7 +25,7 @@ ASSUMPTIONS = ['ids, durations and timestamps are excluded from the comparison w
 
 KINDS = ['success', 'raises', 'interrupt', 'interrupt_in_body', 'discarded', 'sampled_out', 'forced', 'handler_fault', 'key_fault', 'save_fails', 'kill_switch',
          'replay_ok', 'replay_missing_id', 'replay_missing_key', 'replay_fn_raises', 'replay_fn_interrupted', 'replay_imported',
-         'noop_discard', 'double_discard', 'equal_hash_args', 'forced_discarded', 'nested_play_discards_outer']
+         'noop_discard', 'double_discard', 'equal_hash_args', 'forced_discarded', 'nested_play_discards_outer', 'replay_outputs_post_processed', 'context_kept_by_an_input']
 
 
 def hist_program(seed):
@@ -138,6 +138,12 @@ def do_element(ctx, sess, kind, seed, w):
         # a discard with nothing to discard: outside any operation (cleanup code, a signal handler, a request that was not recorded)
         rec.discard_recording()
         return
+    if kind == 'context_kept_by_an_input':
+        res = fr.execute(prog, {('main', 0): 'body_keep_context'}, recorder=rec, spy=sess.spy, box=sess.box, with_twin=False,
+                         built=sess.builts.get((seed, None)))
+        sess.builts[(seed, None)] = res.live
+        sess.kept_context = getattr(res.live, 'kept_context', None) or getattr(sess, 'kept_context', None)
+        return
     if kind == 'forced_discarded':
         # sampling is enforced and the recording is discarded afterwards in the same operation
         res = fr.execute(prog, {('main', 1): 'force', ('main', 3): 'discard'}, recorder=rec, spy=sess.spy, box=sess.box, with_twin=False,
@@ -183,7 +189,14 @@ def do_element(ctx, sess, kind, seed, w):
         idle_check(ctx, rec, w, 'recorded (setup)')
     rid, rprog, rfaults = sess.saved[-1]
     try:
-        if kind == 'replay_ok':
+        if kind == 'replay_outputs_post_processed':
+            # the caller of play() normalises / completes the outputs it was handed IN PLACE
+            from vlib.values import mutate_deep
+            rep = Built(rprog, rec, World(1, poison=True), faults=fr.service_faults(rfaults))
+            pb = rec.play(rid, playback_function_for(rep))
+            for o in list(pb.playback_outputs) + list(pb.recorded_outputs):
+                mutate_deep(o.value, 'POST')
+        elif kind == 'replay_ok':
             rep = Built(rprog, rec, World(1, poison=True), faults=fr.service_faults(rfaults))
             rec.play(rid, playback_function_for(rep))
         elif kind == 'replay_missing_id':
@@ -247,7 +260,12 @@ def run_history(ctx, kinds, which, kind_cassette, seed):
             ctx.count('element_' + k)
             idle_check(ctx, sess.rec, w, k)
         pseed = seed if which == 'record_rate0' else seed + 500
-        if seed % 2 == 0:
+        kept = getattr(sess, 'kept_context', None)
+        if kept is not None:
+            # the follow-up request runs in the execution context an intercepted function of an earlier operation kept
+            ctx.count('probes_in_a_kept_context')
+            got = kept.run(lambda: probe(ctx, sess.rec, sess.spy, sess.box, which, pseed, src, builts=sess.builts))
+        elif seed % 2 == 0:
             got = probe(ctx, sess.rec, sess.spy, sess.box, which, pseed, src, builts=sess.builts)
         else:
             # the next request is served by another thread of the process than the history was
@@ -273,6 +291,12 @@ def run_history(ctx, kinds, which, kind_cassette, seed):
                 raise boxed['err']
             got = boxed['got']
         idle_check(ctx, sess.rec, w, 'probe ' + which)
+        if which == 'record' and got and got[0] == 'saved':
+            # absolute part of the probe (a fresh recorder of the same process shares whatever is process-wide)
+            for k, v in got[1].items():
+                if k.startswith('output: _tape_recorder_operation') and isinstance(v, dict) and v.get('kwargs') not in ({}, None):
+                    ctx.violation('the operation entry of a recording made after history %s carries keyword arguments nobody passed' % kinds,
+                                  dict(w, kwargs=repr(v.get('kwargs'))[:200]))
         # the same probe on a fresh recorder over the same cassette contents
         spy2 = SpyCassette(sess.box.cassette)
         fresh = TapeRecorder(spy2)
